@@ -31,9 +31,11 @@ pub struct ProviderStatus;
 pub struct DaemonClientBlocking { _p: u8 }
 impl DaemonClientBlocking {
     pub uninterp spec fn said_success(&self) -> bool;
+    pub uninterp spec fn said_allowed(&self) -> bool;        // the daemon answered PamStatus(Some(true)) to an account-allowed request
     #[verifier::external_body]
     pub fn call_and_wait(&self, req: ClientRequest, timeout: Option<u64>) -> (r: Result<ClientResponse, ()>)
-        ensures (r matches Ok(ClientResponse::PamAuthenticateStepResponse { response: PamAuthResponse::Success, session_id: _ })) ==> self.said_success()
+        ensures (r matches Ok(ClientResponse::PamAuthenticateStepResponse { response: PamAuthResponse::Success, session_id: _ })) ==> self.said_success(),
+                (r matches Ok(ClientResponse::PamStatus(Some(true)))) ==> self.said_allowed()
     { unimplemented!() }
 }
 // PAM conversation callbacks. Stated type invariant (assumed): a handler never returns Err(PAM_SUCCESS).
@@ -77,8 +79,16 @@ pub open spec fn auth_success_justified(src: Source, now: OffsetDateTime) -> boo
     }
 }
 
+// account phase: success only on the daemon's explicit "allowed", or offline for an unexpired local shadow entry
+pub open spec fn acct_success_justified(src: Source, now: OffsetDateTime) -> bool {
+    match src {
+        Source::Daemon(d) => d.said_allowed(),
+        Source::Fallback { users, shadow } => exists|i: int| 0 <= i < shadow@.len() && (#[trigger] shadow@[i].epoch_expire_seconds matches Some(e) ==> now.unix_ns < e.unix_ns),
+    }
+}
 //@extract sm_authenticate_connected
 //@extract sm_authenticate_fallback
 //@extract sm_authenticate
+//@extract acct_mgmt
 }
 fn main(){}
